@@ -101,6 +101,17 @@ class GaussCut(Gauss):
         return super().to_unit_hypercube(x)
 
 
+class GaussStep(Gauss):
+    """Quantised Gaussian likelihood (steps of 0.25 in log L): many exactly tied likelihoods,
+    legal for the importance sampler (ties and plateaus in the sample store)."""
+
+    def log_likelihood(self, x):
+        out = np.zeros(x.size)
+        for n in self.names:
+            out = out + x[n] * x[n] * (-0.5)
+        return np.floor(out * 4.0) * 0.25
+
+
 class GW5(Model):
     """GW-named parameters with conventional bounds; priors: uniform in mass parameters,
     ra, psi; cosine in dec; Gaussian likelihood in rescaled coordinates.  Exists only to
@@ -176,6 +187,8 @@ def make(name="G2", **kw):
         return Gauss(3, **kw)
     if name == "G4":
         return Gauss(4, **kw)
+    if name == "G2step":
+        return GaussStep(2, **kw)
     if name == "G2cut":
         return GaussCut(2, **kw)
     if name == "G2hole":
